@@ -5,11 +5,13 @@
    one `++` line here. -/
 import Driver.Riff
 import Driver.Player
+import Driver.Mml
 open Driver
 
 def allHandlers : List Handler :=
   RiffD.handlers
   ++ PlayerD.handlers
+  ++ MmlD.handlers
 
 def answerModel (cmd arg : String) : String :=
   match allHandlers.find? (·.cmd == cmd) with
